@@ -109,6 +109,19 @@ def run(tier, rep):
                     reuse.append((t1, cut, t2, ind))
     total.merge(P.run_cases(
         reuse, lambda acc, it: P.case_c20_reuse(acc, *it)))
+    # the same through the es5 helper object (indentation by keyword / by
+    # position)
+    hcases = []
+    for lex in G.programs(1):
+        t = G.render(lex)
+        if '{' not in t:
+            continue
+        for ind in P.INDENTS[:4]:
+            for style in ('keyword', 'positional'):
+                hcases.append((t, ind, style))
+    total.merge(P.run_cases(
+        hcases, lambda acc, it: P.case_c20_helper(acc, *it)))
+    rep.space('helper-entry', cases=len(hcases))
     rep.space('programs', count=len(items), container_chains_3=n3,
               printer_reuse_cases=len(reuse), commented_programs=ncomm)
     rep.cov['bounds'] = {'S2_k': 2, 'container_chain_depth':
@@ -128,7 +141,9 @@ def run(tier, rep):
 
 def replay(w):
     acc = P.Acc()
-    if 'after_abandoned' in w:
+    if 'helper' in w:
+        P.case_c20_helper(acc, w['text'], w['indent'], w['helper'])
+    elif 'after_abandoned' in w:
         P.case_c20_reuse(acc, w['after_abandoned'], w['cut'], w['text'],
                          w['indent'])
     else:
